@@ -443,6 +443,7 @@ func init() {
 			{Name: "CACHE-REWIND", What: "a block served from the cache is rewound to its start on every path (a block positioned by an abandoned Seek is cached mid-block; added after sixth-round seed C13-g)", Floor: 1, Run: ruleCacheRewind},
 			{Name: "CHUNK-CLAMP", What: "ChunkReader.Read subtracts the reader's in-block position from the clamp exactly when the reader is in the chunk's end block (added after a blind second seed round)", Floor: 2, Run: ruleChunkClamp},
 			{Name: "CHUNK-ADVANCE", What: "index.ChunkReader.Read returns io.EOF of its own only where it has found the list of chunks empty: a chunk that is exhausted on entry (an empty one) makes it go on to the next, not end (added for a defect of the unchanged tree, repaired in the eighth batch)", Floor: 2, Run: ruleChunkAdvance},
+			{Name: "CHUNK-PROGRESS", What: "ChunkReader.Read gives a chunk up after a read because of where the reader is, never because of how many bytes came back (a zero-byte read steps over a block end; added after tenth-round seed C13-k)", Floor: 1, Run: ruleChunkProgress},
 			{Name: "ITER-ERR", What: "bam.Iterator's error is assigned by Next only: what stopped the replay of a chunk list is what Close and Error report (shared with C10)", Floor: 2, Run: ruleIterErr},
 			{Name: "PATH-SEEK", What: "bgzf Reader.Seek sets lastChunk = {off,off} after every successful in-block seek, also on a shortcut for the block already held: SetChunk and ChunkReader compare LastChunk().End with the chunk's end (shared with C02; under C13 since eighth-round seed C13-i)", Floor: 1, Run: rulePathSeek},
 			{Name: "SETCHUNK-SEEKS", What: "bam.Reader.SetChunk always seeks to the chunk's Begin before installing it (added after a blind second seed round)", Floor: 1, Run: ruleSetChunkSeeks},
